@@ -20,6 +20,9 @@ type Exec struct {
 	M *Machine
 	S *sym.Solver
 
+	goSeq   int // goroutines inlined so far (footprint mode)
+	goDepth int
+
 	globals map[*ssa.Global]*Value
 	pkgInit map[*ssa.Package]bool
 
